@@ -8,6 +8,8 @@ CONTRACTS = {}    # 'module:Class.meth' (defining class) or alias -> Contract
 SPECFUNS = {}     # name -> SpecFun
 LEMMAS = []       # Lemma
 CANARIES = []
+TRACE = {}        # 'elem': Tup type of trace events when the effect-trace mechanism is used
+EXTCONSTS = {}    # 'rdflib.RDF.type' -> (Ty, z3 const)
 
 class Schema:
     def __init__(self, family, classes, fields, eq_fields=None, invariant=None):
@@ -28,7 +30,7 @@ class Contract:
     def __init__(self, qual, params, returns=T.NoneT, requires=(), ensures=(), raises=(), loops=None,
                  modifies=(), mutates=(), inline=False, props=(), self_type=None, ghost=None, verify=True,
                  assume_only=False, yields=None, decreases=None, lemmas=(), note="", cover=True,
-                 raises_any_ok=False, vararg_types=None, canary=False, replay_self=None):
+                 raises_any_ok=False, vararg_types=None, canary=False, replay_self=None, emits=None, bnodes=None):
         self.qual = qual
         self.params = dict(params)            # name -> Ty (without self)
         self.returns = returns
@@ -50,6 +52,8 @@ class Contract:
         self.vararg_types = vararg_types
         self.canary = canary            # deliberately wrong contract: at least one obligation must be refuted
         self.replay_self = replay_self
+        self.emits = emits              # effect trace: list of '(s, p, o)' or '(guard, s, p, o)' spec expressions (None = no trace contract)
+        self.bnodes = bnodes            # number of fresh nodes drawn (spec expression)
 
 def contract(qual, **kw):
     c = Contract(qual, **kw)
@@ -82,4 +86,11 @@ def lemma(name, vars, hyps, goal, **kw):
     return l
 
 def reset():
-    SCHEMAS.clear(); CLASS_FAMILY.clear(); CONTRACTS.clear(); SPECFUNS.clear(); del LEMMAS[:]; del CANARIES[:]
+    SCHEMAS.clear(); CLASS_FAMILY.clear(); CONTRACTS.clear(); SPECFUNS.clear(); del LEMMAS[:]; del CANARIES[:]; TRACE.clear(); EXTCONSTS.clear()
+
+def trace_events(tup_ty):
+    TRACE["elem"] = tup_ty
+
+def extconst(name, ty):
+    import z3 as _z3
+    EXTCONSTS[name] = (ty, _z3.Const("ext!" + name.replace(".", "_"), T.sort_of(ty)))
